@@ -239,6 +239,8 @@ func (w *World) nonNilOracleMode(onSuccess bool) func(site *ssa.Call, idx int) b
 		var callees []*ssa.Function
 		if f := site.Call.StaticCallee(); f != nil {
 			callees = []*ssa.Function{f}
+		} else if oracleCallee != nil {
+			callees = []*ssa.Function{oracleCallee}
 		} else {
 			callees = w.Callees(site)
 		}
@@ -381,4 +383,20 @@ func ruleIsEmptyMeansNoEntries(w *World, r *Recorder, rule string) {
 	if n == 0 {
 		r.Undecide(rule, "IsEmpty", "-", "no IsEmpty method on the component container found")
 	}
+}
+
+// ruleResultFresh: result idx of fn is memory allocated during the call and
+// nothing else — not the receiver's, an argument's or a package-level
+// buffer's. A token or encoding handed to the caller must not change when the
+// library is used again (E5 provenance of the returned value).
+func ruleResultFresh(w *World, r *Recorder, rule string, fn *ssa.Function, name string, idx int) {
+	ef := w.Effects()[fn]
+	if fn == nil || ef == nil || idx >= len(ef.RetProv) {
+		r.Undecide(rule, name+"#result-fresh", "-", "no provenance summary")
+		return
+	}
+	pr := ef.RetProv[idx]
+	ok := pr.onlyFresh() && len(pr.Holds) == 0
+	r.Check(ok, rule, name+"#result-fresh", w.FnPos(fn), "the bytes returned are freshly allocated (provenance: "+pr.String()+")",
+		"the bytes returned may share memory with "+pr.String()+": a later call (or the caller's object) can change what was handed out")
 }
